@@ -23,10 +23,13 @@ def line(c, with_mode=None):
 
 
 def make_ca(c):
+    from .ev1 import with_layout
     a = np.array(c["hist"], dtype=np.int64)
     if c.get("scale", 1) != 1:
-        return (a.astype(np.float64) / c["scale"]).astype(c["dtype"])
-    return a.astype(c["dtype"])
+        a = (a.astype(np.float64) / c["scale"]).astype(c["dtype"])
+    else:
+        a = a.astype(c["dtype"])
+    return with_layout(a, c.get("layout"))
 
 
 def scaled(arr, c):
